@@ -4,6 +4,7 @@ import (
 	"context"
 
 	"github.com/aperturerobotics/util/broadcast"
+	"github.com/aperturerobotics/util/verifhook"
 )
 
 // CallConcurrentlyFunc is a function passed to CallConcurrently.
@@ -26,6 +27,7 @@ func CallConcurrently(ctx context.Context, fns ...CallConcurrentlyFunc) error {
 	var exitErr error
 
 	callFunc := func(fn CallConcurrentlyFunc) {
+		verifhook.Go("ccall.worker", &bcast)
 		err := fn(subCtx)
 		bcast.HoldLock(func(broadcast func(), getWaitCh func() <-chan struct{}) {
 			running--
